@@ -1,7 +1,7 @@
 import ast
 """C10 -- significant and bracketed durations locate threshold crossings exactly (structure of the masks)."""
 from ..tyob import *  # noqa
-from ..tyob import analyse, expect, item, unmodelled_in, check_forwarder, only_managed_reads
+from ..tyob import sibling_defaults, analyse, expect, item, unmodelled_in, check_forwarder, only_managed_reads
 
 ACC = "eqsig.single.AccSignal"
 F = "F"  # atom of a user supplied cumulative measure
@@ -167,6 +167,9 @@ def run(chk):
             check_value(chk, c, main[0], se, ["abs", "attr:_values"], R, [])
     check_forwarder(chk, "R-MEASURE", "eqsig.im.calc_significant_duration", "eqsig.im.calc_sig_dur_vals")
     check_forwarder(chk, "R-MEASURE", "eqsig.im.calc_bracketed_duration", "eqsig.im.calc_brac_dur")
+    sibling_defaults(chk, "R-MEASURE", ["eqsig.im.calc_sig_dur_vals", "eqsig.im.calc_sig_dur", "eqsig.im.calc_significant_duration"],
+                     neutral={"se": False}, label="calc_sig_dur_vals~calc_sig_dur~calc_significant_duration")
+    sibling_defaults(chk, "R-MEASURE", ["eqsig.im.calc_brac_dur"], neutral={"se": False}, label="calc_brac_dur")
     chk.floor("R-STRICT", 17)
     chk.floor("R-REL", 40)
     chk.floor("R-ENDS", 28)
